@@ -12,6 +12,7 @@ import (
 	"testing"
 	"time"
 
+	"free5gclib/aper"
 	"free5gclib/ngap"
 	"free5gclib/ngap/ngapType"
 
@@ -349,6 +350,52 @@ func TestC14_Structural(t *testing.T) {
 					if !r.Each(t, c, v) {
 						return
 					}
+				}
+			}
+		}
+	}
+}
+
+// TestC14_LargeValid: totality also covers long VALID input. Every SEQUENCE OF of the schema whose bound allows it is
+// encoded (by the independent encoder) with 1025, 2049 and 4097 elements — and once more with the last octet cut off —
+// and handed to the decoder of that type: a value or an error, never a panic.
+func TestC14_LargeValid(t *testing.T) {
+	r := ev.New(t, "C14", "TestC14_LargeValid")
+	defer r.Flush()
+	for li, leaf := range schemaLeaves() {
+		if leaf.Kind != "list" || li%ev.NShards() != ev.Shard() {
+			continue
+		}
+		p := gen.ParseTag(leaf.Tag)
+		lb, ub, has := sbounds(p)
+		if !has {
+			continue
+		}
+		for _, n := range []int64{1025, 2049, 4097} {
+			if n < lb || n > ub {
+				continue
+			}
+			leaf, n := leaf, n
+			val := rapid.Custom(func(rt *rapid.T) interface{} { return buildLeaf(rt, leaf, p, n) }).Example(int(ev.BaseSeed()%1000003) + li*131 + int(n))
+			rb, _, err := refper.Encode(val, leaf.Tag)
+			if err != nil || len(rb) >= 1<<20 {
+				continue
+			}
+			for _, cut := range []int{0, 1} {
+				in := append([]byte{}, rb[:len(rb)-cut]...)
+				c := c14Case{Kind: fmt.Sprintf("large-valid-list(%d elements, %d octets cut)", n, cut), Entry: leaf.Type + " " + leaf.Tag, Hex: hex.EncodeToString(trunc(in, 64))}
+				v := ev.Verdict{NT: true, Hash: ev.HashBytes(in), Classes: []string{"large-valid-list"}}
+				out := reflect.New(leaf.t)
+				stop := r.Watchdog(c, "aper.UnmarshalWithParams", 4*c14TimeLimit)
+				derr, site := ev.Guard(func() error { return aper.UnmarshalWithParams(in, out.Interface(), leaf.Tag) })
+				stop()
+				if site != "" {
+					v.Key, v.Err = "dec:panic:"+site, fmt.Errorf("decoding a %s of %d elements (%d octets, last %d cut off) panicked: %v", leaf.Type, n, len(in), cut, derr)
+				} else if cut == 0 && derr != nil {
+					v.Classes = append(v.Classes, "large-valid-list:refused(C04's business)")
+				}
+				if !r.Each(t, c, v) {
+					return
 				}
 			}
 		}
